@@ -29,13 +29,25 @@ func (k *kit) oracles() string {
 			if len(sa) > len(longest[r]) {
 				longest[r] = sa
 			}
-			seen := map[string]bool{}
-			for _, e := range sa {
+			seen := map[string]int{}
+			for i, e := range sa {
 				key := e[:strings.LastIndexByte(e, '/')]
-				if seen[key] {
-					once = fmt.Sprintf("fail:s%d/r%d:%s-twice", a, r, key)
+				if j, dup := seen[key]; dup {
+					// an entry applied before a restart of the store and again after it is the
+					// re-delivery of the log to a restarted peer
+					replay := false
+					for _, m := range k.restartMarks {
+						if m.store == a && m.region == r && j < m.pos && i >= m.pos {
+							replay = true
+						}
+					}
+					if replay && !strings.HasPrefix(once, "fail:") {
+						once = "replayed-after-restart"
+					} else if !replay {
+						once = fmt.Sprintf("fail:s%d/r%d:%s-twice", a, r, key)
+					}
 				}
-				seen[key] = true
+				seen[key] = i
 			}
 			for b := a + 1; b <= nStores; b++ {
 				sb := k.applied[[2]uint64{uint64(b), r}]
